@@ -1,0 +1,42 @@
+//go:build verif
+
+// Contracts for the verification machinery in /verif (comment-only; compiled only with -tags verif).
+//
+// The decorator reaches the keepers through interfaces; the contracts assume the concrete keepers that app.go
+// wires in (checked by the frame obligation interface-implementations-as-assumed).
+package ante
+
+//@ implements BeaconKeeper github.com/unification-com/mainchain/x/beacon/keeper.Keeper
+//@ implements EnterpriseKeeper github.com/unification-com/mainchain/x/enterprise/keeper.Keeper
+
+// The expected fee is the sum over the transaction's messages of the current registration / record / per-slot fees;
+// the check passes only if the amount offered in the fee denomination equals it exactly (C06).
+//@ func checkBeaconFees(ctx, tx, bk) (err)
+//@   props C06
+//@   requires beaParamsSet(bea_store) && validDenom(beaParams(bea_store).Denom)
+//@   pure
+//@   ensures @exact_fee err == nil ==> coinsAmt(txFee(tx), beaParams(bea_store).Denom) == beaSumFee(arr(txMsgs(tx)), len(txMsgs(tx)), beaParams(bea_store))
+//@   loop 1: invariant 0 - 1 <= rangeindex && rangeindex < len(msgs) && msgs == txMsgs(tx) && expectedFeeDenom == beaParams(bea_store).Denom
+//@   loop 1: invariant expectedFees.Denom == beaParams(bea_store).Denom && !isnil(expectedFees.Amount) && Amt(expectedFees) == beaSumFee(arr(msgs), rangeindex + 1, beaParams(bea_store)) && Amt(expectedFees) >= 0
+
+// The fee payer must be able to cover the fee from its balance plus locked eFUND, and from spendable plus locked.
+//@ func checkFeePayerHasFunds(ctx, bankKeeper, accKeeper, ek, bk, tx) (err)
+//@   props C06
+//@   requires beaParamsSet(bea_store) && validDenom(beaParams(bea_store).Denom) && ENT_BOOKS_WF(ent_store) && entDenom(ent_store) == beaParams(bea_store).Denom
+//@   pure
+//@   ensures @covered err == nil ==> balOf(bank_bal, bytesval(txFeePayer(tx)), beaParams(bea_store).Denom) + lockedAmt(ent_store, bytesval(txFeePayer(tx))) >= coinsAmt(txFee(tx), beaParams(bea_store).Denom)
+//@   ensures @covered_spendable err == nil ==> bankSpendable(bank_bal, bytesval(txFeePayer(tx)), beaParams(bea_store).Denom) + lockedAmt(ent_store, bytesval(txFeePayer(tx))) >= coinsAmt(txFee(tx), beaParams(bea_store).Denom)
+
+//@ func CorrectBeaconFeeDecorator.AnteHandle(ctx, tx, simulate, next) (newCtx, err)
+//@   props C06
+//@   requires beaParamsSet(bea_store) && validDenom(beaParams(bea_store).Denom) && ENT_BOOKS_WF(ent_store) && entDenom(ent_store) == beaParams(bea_store).Denom
+//@   pure
+//@   at_next @exact_fee_at_checktx beaTx(tx) && isCheckTx(ctx) && !simulate ==> coinsAmt(txFee(tx), beaParams(bea_store).Denom) == beaSumFee(arr(txMsgs(tx)), len(txMsgs(tx)), beaParams(bea_store))
+//@   at_next @never_mixed_with_other_module beaTx(tx) ==> !wrkTx(tx)
+//@   at_next @fee_payer_can_cover beaTx(tx) ==> balOf(bank_bal, bytesval(txFeePayer(tx)), beaParams(bea_store).Denom) + lockedAmt(ent_store, bytesval(txFeePayer(tx))) >= coinsAmt(txFee(tx), beaParams(bea_store).Denom) && bankSpendable(bank_bal, bytesval(txFeePayer(tx)), beaParams(bea_store).Denom) + lockedAmt(ent_store, bytesval(txFeePayer(tx))) >= coinsAmt(txFee(tx), beaParams(bea_store).Denom)
+
+// The slot check only reads; what it guarantees about the requested slots is not under contract yet.
+//@ func checkBeaconMaxSlots(ctx, tx, bk) (err)
+//@   props C06 C08
+//@   requires beaParamsSet(bea_store)
+//@   pure
